@@ -1,6 +1,7 @@
 import ScVerif.C14.Lemmas
 import ScVerif.C14.Acceptor
 import ScVerif.C14.AcceptLemmas
+import ScVerif.C14.Tween
 /-!
 # C14 — trait servers give read-your-writes through the full stack
 
@@ -246,6 +247,49 @@ theorem C14_acceptor_accepts_model_stream (C : Cfg Nat Nat U)
       have hr : qRecv q1 x true = ([], .ok) := by
         simp [qRecv, hskip, skipOptional]
       refine ⟨hout, by rw [hr], by rw [hr]; rfl, by rw [hr]; exact fun e he => by simp at he, hfin⟩
+
+/-! ### Servers whose Update starts background writes (lightpb.MemoryDevice tweens)
+
+Read-your-writes under an interrupted tween: the response of the interrupting Update stays the
+register's value whatever the tween goroutine still does, for every schedule of its remaining
+ticks — because every one of its writes is guarded by the value it wrote last. -/
+
+/-- **C14_tween_interrupt_sticks.** After a plain Update with response `v` lands on a server with a live
+tween job (and `v` differs from what the job wrote last), every further sequence of progress ticks and
+the finishing tick leaves the register at `v`. -/
+theorem C14_tween_interrupt_sticks {W : Type} [DecidableEq W] (s : TSrv W) (j : Job W) (v : W)
+    (hj : s.job = some j) (hv : v ≠ j.last) (bs : List (BgStep W)) :
+    (bgRun true (interrupt s v) bs).cur = v := by
+  cases bs with
+  | nil => rfl
+  | cons b bs =>
+    have h1 : bgStep true (interrupt s v) b = { cur := v, job := none } := by
+      cases b <;> simp [bgStep, interrupt, hj, hv]
+    simp only [bgRun, h1]
+    rw [bgRun_nojob true bs _ rfl]
+
+/-- the same server with an UNGUARDED finishing write (the seeded change C14-1) loses the Update -/
+theorem C14_tween_unguarded_finish_fails :
+    ∃ (s : TSrv Nat) (j : Job Nat) (v : Nat), s.job = some j ∧ v ≠ j.last ∧
+      (bgRun false (interrupt s v) [.finish]).cur ≠ v :=
+  ⟨⟨50, some ⟨50, 80⟩⟩, ⟨50, 80⟩, 10, rfl, by decide, by decide⟩
+
+/-- **C14_tween_completes.** Left alone, the job ends on its target whatever progress values the ticks
+write: after any progress ticks followed by the finishing tick the register holds the target. -/
+theorem C14_tween_completes {W : Type} [DecidableEq W] (ps : List W) :
+    ∀ (s : TSrv W) (j : Job W), s.job = some j → s.cur = j.last →
+      (bgRun true s (ps.map BgStep.progress ++ [.finish])).cur = j.target := by
+  induction ps with
+  | nil =>
+    intro s j hj hc
+    simp [bgRun, bgStep, hj, hc]
+  | cons p ps ih =>
+    intro s j hj hc
+    simp only [List.map_cons, List.cons_append, bgRun]
+    have h1 : bgStep true s (.progress p) = { cur := p, job := some { j with last := p } } := by
+      simp [bgStep, hj, hc]
+    rw [h1]
+    exact ih _ { j with last := p } rfl rfl
 
 /-! ### A recorded finding: composite (multi-item) updates — openclosepb.UpdatePositions
 
